@@ -25,6 +25,12 @@ NewAt(b) ==      \* AtToWriter(w, b)
     /\ base' = b /\ cur' = b /\ limit' = Inf
     /\ calls' = <<>> /\ ret' = [n |-> 0, err |-> "nil"]
 
+\* AtToWriter in coordinates relative to its start: the section ends at MaxInt64, `room` bytes on
+\* (no practical end unless the start is right below MaxInt64)
+NewAtRoom(room) ==
+    /\ base' = 0 /\ cur' = 0 /\ limit' = IF room >= Inf THEN Inf ELSE room
+    /\ calls' = <<>> /\ ret' = [n |-> 0, err |-> "nil"]
+
 \* error of a write that offered m of Len(p) bytes to the underlying writer, which failed iff e
 WriteErr(p, m, e) == IF e THEN "inj" ELSE IF m < Len(p) THEN "ShortWrite" ELSE "nil"
 
